@@ -382,3 +382,95 @@ Proof.
     apply map_ext_in. intros x Hx. unfold ligs_of. rewrite filter_app.
     rewrite F2; auto. rewrite Forall_forall in HL. specialize (HL x Hx). lia.
 Qed.
+
+(* ---- ranges (GSUB1) ---- *)
+Lemma seq_up_length : forall n f, length (seq_up f n) = n.
+Proof. induction n; intros; cbn; auto. Qed.
+
+Lemma seq_up_gt : forall n f x, In x (seq_up (f + 1) n) -> f < x.
+Proof.
+  induction n as [|n IH]; intros f x H; cbn in H; [contradiction|].
+  destruct H as [H|H]; [lia|]. apply IH in H. lia.
+Qed.
+
+Lemma seq_up_ascending : forall n f, ascending (seq_up f n).
+Proof.
+  induction n as [|n IH]; intros f; cbn [seq_up ascending]; auto.
+  split; [|apply IH]. destruct n; cbn; auto. lia.
+Qed.
+
+Lemma nth_seq_up_combine : forall n k f t d, (k < n)%nat ->
+  nth k (combine (seq_up f n) (seq_up t n)) d = (f + N.of_nat k, t + N.of_nat k).
+Proof.
+  induction n as [|n IH]; intros k f t d H; [lia|].
+  destruct k as [|k]; cbn [seq_up combine nth].
+  - f_equal; lia.
+  - rewrite IH by lia. f_equal; lia.
+Qed.
+
+Lemma nth_firstn_lt : forall {A} (l : list A) k m d, (k < m)%nat -> nth k (firstn m l) d = nth k l d.
+Proof.
+  intros A l. induction l as [|x l IH]; intros k m d H.
+  - rewrite firstn_nil. reflexivity.
+  - destruct m; [lia|]. destruct k; cbn; auto. apply IH. lia.
+Qed.
+
+Lemma run_len_le : forall rest f delta, (run_len f rest delta <= length rest)%nat.
+Proof.
+  induction rest as [|[f' t'] r IH]; intros f delta; cbn [run_len length]; [lia|].
+  destruct (_ && _); [|lia]. specialize (IH f' delta). lia.
+Qed.
+
+Lemma run_len_spec : forall rest f t,
+  f < 65535 -> t < 65535 -> Forall (fun p => fst p < 65535 /\ snd p < 65535) rest ->
+  let n := run_len f rest (delta16 f t) in
+  firstn n rest = combine (seq_up (f + 1) n) (seq_up (t + 1) n).
+Proof.
+  induction rest as [|[f' t'] r IH]; intros f t Hf Ht Hr; cbn [run_len]; [reflexivity|].
+  inversion Hr as [|? ? Hp Hr']; subst. cbn [fst snd] in Hp. destruct Hp as [Hf' Ht'].
+  destruct ((f' =? (f + 1) mod 65536) && (t' =? (f' + delta16 f t) mod 65536)) eqn:E; [|reflexivity].
+  apply andb_true_iff in E. destruct E as [E1 E2]. unfold delta16 in E2.
+  assert (Ef : f' = f + 1) by lia.
+  assert (Et : t' = t + 1) by lia.
+  subst f' t'. cbn [firstn seq_up combine]. f_equal.
+  assert (Ed : delta16 (f + 1) (t + 1) = delta16 f t) by (unfold delta16; lia).
+  rewrite <- Ed. apply IH; auto.
+Qed.
+
+Lemma firstn_run : forall rest f t,
+  f < 65535 -> t < 65535 -> Forall (fun p => fst p < 65535 /\ snd p < 65535) rest ->
+  let n := S (run_len f rest (delta16 f t)) in
+  firstn n ((f, t) :: rest) = combine (seq_up f n) (seq_up t n).
+Proof.
+  intros rest f t Hf Ht Hr. cbn [firstn seq_up combine]. f_equal. apply run_len_spec; auto.
+Qed.
+
+Lemma add_pairs_asc : forall fr to res,
+  length fr = length to -> ascending fr ->
+  (forall k, In k fr -> Forall (fun p => fst p < k) res) ->
+  add_pairs res fr to = Some (res ++ combine fr to).
+Proof.
+  induction fr as [|f fr IH]; intros to res Hl Ha Hk; destruct to as [|t to]; try discriminate.
+  - cbn. rewrite app_nil_r. reflexivity.
+  - cbn [add_pairs combine]. unfold has_key. rewrite assoc_none_lt by (apply Hk; left; auto).
+    rewrite IH.
+    + rewrite <- app_assoc. reflexivity.
+    + cbn in Hl. lia.
+    + eapply ascending_tail; eauto.
+    + intros k Hin. apply Forall_app. split; [apply Hk; right; auto|].
+      constructor; [|constructor]. cbn. pose proof (ascending_lt_all _ _ Ha) as HL.
+      rewrite Forall_forall in HL. auto.
+Qed.
+
+Lemma ascending_app_r : forall a b, ascending (a ++ b) -> ascending b.
+Proof. induction a as [|x a IH]; intros b H; cbn in *; auto. apply IH. apply H. Qed.
+
+Lemma ascending_app_lt : forall a b, ascending (a ++ b) ->
+  forall x y, In x a -> In y b -> x < y.
+Proof.
+  induction a as [|z a IH]; intros b H x y Hx Hy; [contradiction|].
+  destruct Hx as [E|Hx].
+  - subst. pose proof (ascending_lt_all _ _ H) as HL. rewrite Forall_forall in HL.
+    apply HL. apply in_or_app. right. auto.
+  - apply (IH b); auto. cbn in H. apply H.
+Qed.
